@@ -282,6 +282,9 @@ func addLineText(p *lineParser) {
 	}
 
 	switch k := p.ContainerKind(); {
+	case k == ParagraphKind:
+		// Paragraph continuation text: leading spaces or tabs are skipped.
+		p.ConsumeIndent(p.Indent())
 	case blockRules[k].acceptsLines:
 		if p.i < len(p.line) && p.line[p.i] == '\t' && p.tabRemaining > 0 && p.tabRemaining < tabStopSize {
 			p.container.inlineChildren = append(p.container.inlineChildren, &Inline{
